@@ -628,7 +628,8 @@ Proof.
               end
             | progress (unfold alloc; cbv beta iota zeta)
             | match goal with |- context [match ?x with _ => _ end] => destruct x end ];
-          try (unfold var in *; cbn [snd vars set_obj put_msg set_flag] in *; congruence). }
+          try (cbn [snd]; unfold var, set_obj; cbn [vars];
+               match goal with MV : vars _ = vars st |- _ => rewrite MV end; exact V). }
       pose proof (IH st' V' Rr) as R. destruct (run st' r). exact R. }
     unfold dump_var. rewrite (U ops2 st1 V Rb), V. reflexivity.
 Qed.
